@@ -160,4 +160,36 @@ def joinStep (pos depth : Nat) : Res Step :=
   if pos < depth then .error .valueError
   else .ok (.replace (pos - depth) (pos + depth) Slice.empty true)
 
+/-! ### the guard of "an approved wrap applies" (Props/C12.lean `findWrapping_wrap_applies`) -/
+
+/-- what `find_wrapping` does not look at: it walks the innermost wrapper's automaton over the *types* of the
+    nodes of the range (`find_wrapping_inside`), the wrap itself asks `can_replace` of that wrapper
+    (`Slice.insert_at` → `insert_into`), which also wants the wrapper to allow the *marks* of every node of the
+    range.  (First conjunct: no wrapper type is a leaf type.  In a compiled schema a leaf type has no content
+    edges, so `find_wrapping` never approves one; the model's schema tables do not enforce that.) -/
+def wrapGuardR (S : Schema) (f t : RPos) (depth : Nat) (wrappers : List (TypeId × Attrs)) : Bool :=
+  wrappers.all (fun w => !(S.nodeType w.1).isLeaf) &&
+  match wrappers.getLast? with
+  | some w =>
+    (cutByIndex (f.node depth).kids (f.index depth) (t.indexAfter depth)).all
+      (fun k => (S.nodeType w.1).allowsMarks k.marks)
+  | none => false
+
+def wrapGuard (S : Schema) (doc : Node) (a b depth : Nat) (wrappers : List (TypeId × Attrs)) : Bool :=
+  match doc.resolve a, doc.resolve b with
+  | some f, some t => wrapGuardR S f t depth wrappers
+  | _, _ => true
+
+/-- … and what it does not look at either: `Transform.wrap` wants every wrapper to accept the next one as its
+    *only* child (`match_fragment(content).valid_end`, a `TransformError` otherwise).  The chain `find_wrapping`
+    returns is `around ++ [type] ++ inside`, the results of two separate searches; `compute_wrapping` ends a
+    search as soon as `match_type(target)` succeeds, so the last wrapper of `around` need only accept `type`
+    as *first* child, and `type` need only accept the first wrapper of `inside` as first child.  (Also here:
+    the attributes given for `type` are complete and `type` is not the text type, both `ValueError` in
+    `NodeType.create`.)  This is "building the step succeeds", on the wrappers alone. -/
+def wrapBuilds (S : Schema) (wrappers : List (TypeId × Attrs)) : Bool :=
+  match wrapContent S wrappers with
+  | .ok _ => true
+  | .error _ => false
+
 end PM
